@@ -340,3 +340,35 @@ def oracle_c04(case, i, ep):
                 if path not in fj or abs(fj[path] - v) > (rer_tol(fl, sc) if path.startswith("rer") else _tol(sc)):
                     bad.append(("quantity other than per-m2 changes with the reference area", {"path": path}))
     return bad
+
+
+def oracle_c13(case, i, ep):
+    """RER definition, range and nesting (k_exp = 0, regulatory factors)"""
+    bad = []
+    fl = flat_ep(ep)
+    sc = ep_scale(fl)
+    ren, nren = Fraction(ep["balance"]["we"]["b"][0]), Fraction(ep["balance"]["we"]["b"][1])
+    tot = ren + nren
+    rer, nrb, onst = Fraction(ep["rer"]), Fraction(ep["rer_nrb"]), Fraction(ep["rer_onst"])
+    tol = rer_tol(fl, sc)
+    noise = 64 * _tol(sc)          # "total primary energy above rounding noise"
+    if ren < -noise or nren < -noise:
+        bad.append(("negative renewable or non-renewable primary energy", {"ren": core.fstr(ren), "nren": core.fstr(nren)}))
+    if abs(tot) <= noise:
+        return bad
+    if tot > 0:
+        want = ren / tot
+        if abs(rer - want) > tol:
+            bad.append(("RER != ren/(ren+nren)", {"rer": core.fstr(rer), "expected": core.fstr(want)}))
+        if rer < -tol or rer > 1 + tol:
+            bad.append(("RER outside [0,1]", {"rer": core.fstr(rer)}))
+        el = ep["balance_cr"].get("ELECTRICIDAD")
+        exports_el = bool(el and Fraction(el["exp"]["an"]) > 0)
+        d = {"rer": core.fstr(rer), "rer_nrb": core.fstr(nrb), "rer_onst": core.fstr(onst), "exports_electricity": exports_el}
+        if nrb > rer + tol:
+            bad.append(("RER_nrb > RER", d))
+        if onst < -tol:
+            bad.append(("RER_onst < 0", d))
+        if onst > nrb + tol:
+            bad.append(("KNOWN:exported-electricity" if exports_el else "RER_onst > RER_nrb", d))
+    return bad
